@@ -9,19 +9,19 @@ from . import sweeps
 TOS_POOL = [0, 0, 0, 0, 1, 1, 2, 3]
 
 
-def history(rng, net, n):
+def history(rng, net, n, tos_pool=TOS_POOL, p_rand_tos=0.1):
     """Frames per the property's quantifier; commands respect the domain restriction."""
     mm = MapperModel()
     out = []
     stations = net.mappers + net.strangers[:2]
     bridge_of = dict(zip(net.mappers, net.bridges))
     for _ in range(n):
-        tos = rng.choice(TOS_POOL) if rng.random() < 0.9 else rng.randint(0, 255)
+        tos = rng.choice(tos_pool) if rng.random() >= p_rand_tos else rng.randint(0, 255)
         r = rng.random()
         src = rng.choice(stations)
         eth = bridge_of.get(src, src) if rng.random() < 0.25 else src
         if r < 0.34:
-            fr = W.discover(src, rng.choice(G.GENS), rng.getrandbits(16),
+            fr = W.discover(src, rng.choice(G.GENS + [rng.getrandbits(16)]), rng.getrandbits(16),
                             [rng.choice(net.strangers + [net.own]) for _ in range(rng.choice([0, 1, 3]))],
                             tos=tos, eth_src=eth)
         elif r < 0.44:
@@ -116,6 +116,7 @@ def monitor(scn, sobj, rep, sf, ck):
     if judged >= 3 and len(kinds) >= 2:
         rep.nontrivial((scn.sid, tuple(sorted(kinds)), judged))
     rep.count("discovers_judged", judged)
+    rep.evaluations += judged
     if len(rep.samples) < 2 and judged:
         rep.sample(dict(scenario=scn.sid, frames=["tos=%d op=%s src=%s" % (f[15], W.OPNAMES.get(f[17], f[17]), f[24:30].hex())
                                                    for f in frames[:12]], judged=judged))
